@@ -83,7 +83,7 @@ func propC03(ch core.Chooser, st *core.Stats) error {
 		return err
 	}
 	n := ch.Int("nops", 1, core.Scale(30, 120))
-	if err := s.runOps(n, []int{8, 4, 2, 1, 1, 1, 1}); err != nil {
+	if err := s.runOps(n, []int{8, 4, 2, 1, 1, 1, 1, 1}); err != nil {
 		return err
 	}
 	if core.Bool(ch, "finalclose") {
